@@ -325,6 +325,9 @@ func collectSites(v reflect.Value, commit func(), path string, viaUser, root boo
 		}
 	case reflect.Struct:
 		for i := 0; i < v.NumField(); i++ {
+			if v.Type().Field(i).Name == "_" {
+				continue
+			}
 			collectSites(v.Field(i), commit, path+"."+v.Type().Field(i).Name, viaUser, false, out)
 		}
 	}
@@ -385,7 +388,9 @@ func (g *Gen) EqRewrite(v reflect.Value) (reflect.Value, int) {
 			}
 		case reflect.Struct:
 			for i := 0; i < x.NumField(); i++ {
-				walk(x.Field(i), commit)
+				if x.Type().Field(i).Name != "_" {
+					walk(x.Field(i), commit)
+				}
 			}
 		}
 	}
@@ -436,7 +441,9 @@ func SwapStrings(v reflect.Value, a, b string) (reflect.Value, int) {
 			}
 		case reflect.Struct:
 			for i := 0; i < x.NumField(); i++ {
-				walk(x.Field(i), commit)
+				if x.Type().Field(i).Name != "_" {
+					walk(x.Field(i), commit)
+				}
 			}
 		}
 	}
